@@ -720,7 +720,21 @@ def check_apex(prog: Program, rep, rule: str) -> None:
                      f'find_index_of_apex_point searches {bad!r} on some path, not the whole trajectory: a highest row '
                      f'outside that window is never returned')
         else:
-            rep.undecided(rule, wrap.where, 'apex wrapper', f'returns {outs!r}: not the index found by the search')
+            # a path that answers without the search: acceptable only when decided from the rows themselves
+            foreign = []
+            for path_, x in cond_leaves(r):
+                if isinstance(x, SymObj) and x.path == 'apex@result':
+                    continue
+                for t_, _pol in path_:
+                    names_ = set(t_.rf.symbols()) if t_.rf is not None else {t_.key}
+                    foreign += [n_ for n_ in names_ if 'shot.trajectory' not in n_]
+            if foreign:
+                rep.fail(rule, hp.path, wrap.node.lineno, wrap.qualname, 'apex-shortcut',
+                         f'find_index_of_apex_point answers {[repr(x) for x in outs if not (isinstance(x, SymObj) and x.path == "apex@result")][0]} '
+                         f'without searching, decided from `{foreign[0]}`, which is not a row of the trajectory: the result object '
+                         f'keeps the caller\'s live shot, so the answer for an old result changes when the shot is changed afterwards')
+            else:
+                rep.undecided(rule, wrap.where, 'apex wrapper', f'returns {outs!r}: not the index found by the search')
     except Undecided as exc:
         rep.undecided(rule, wrap.where, 'apex wrapper', f'not readable by engine D: {exc}')
     # (b) the search
